@@ -1,10 +1,9 @@
 ------------------------------ MODULE MC_Flatten -----------------------------
 (***************************************************************************)
 (* L2: exhaustive exploration of the flatten PIPELINE (Flatten.tla) over   *)
-(* the scenario family restricted to bundles without anonymous pointers    *)
-(* and without name collisions (where pointer naming and OAIGen            *)
-(* de-duplication, specified relationally only, are the identity), for     *)
-(* every option set.  The state machine runs phase by phase; C01's         *)
+(* the scenario family restricted to bundles without name collisions       *)
+(* (where OAIGen de-duplication is the identity), anonymous pointers and   *)
+(* pointers into shared objects included, for every option set of W.  The state machine runs phase by phase; C01's         *)
 (* operation-meaning clause is an invariant of EVERY state (inductive),    *)
 (* the other properties are checked when the pipeline returns, and C08     *)
 (* by running the pipeline again on its output.                            *)
@@ -19,12 +18,15 @@ vars == <<pc, b0, doc, mode, ru, scen>>
 
 Eligible(t, s, h, h2, c) ==
   /\ ValidCombo(t, s, h, h2, c) /\ c = "none" /\ s # "ptrarray"
-  /\ t \in TKinds \ (AnonTargets \cup SharedPtrTargets) /\ h \in HKinds /\ h2 \in H2Kinds
+  /\ t \in TKinds /\ h \in HKinds /\ h2 \in H2Kinds
+  \* W: anonymous pointers under Minimal and full flattening only; pointers into shared objects only without RemoveUnused (see Pick)
 
 Init == /\ pc = "pick" /\ b0 = <<>> /\ doc = Empty /\ mode = "-" /\ ru = FALSE /\ scen = <<>>
 
 Pick(t, s, h, h2, m, r) ==
   /\ pc = "pick" /\ Eligible(t, s, h, h2, "none")
+  /\ (t \in AnonTargets => m # "expand")
+  /\ (t \in SharedPtrTargets => m # "expand" /\ ~r)
   /\ b0' = Assemble(t, s, h, h2, "none") /\ doc' = RootOf(b0') /\ mode' = m /\ ru' = r
   /\ scen' = <<t, s, h, h2>> /\ pc' = "expand"
 Step(from, to, newdoc) == pc = from /\ pc' = to /\ doc' = newdoc /\ UNCHANGED <<b0, mode, ru, scen>>
@@ -33,7 +35,8 @@ Next ==
   \/ Step("expand", "drop", Phase1(b0, mode))
   \/ Step("drop", "import", Phase3(doc, ru))
   \/ Step("import", "name", Phase4(b0, doc))
-  \/ Step("name", "remove", Phase5(doc, mode))
+  \/ Step("name", "strip", Phase5(doc, mode))
+  \/ Step("strip", "remove", Phase6(doc, mode, 4))
   \/ Step("remove", "done", Phase7(doc, ru))
 Spec == Init /\ [][Next]_vars
 
@@ -52,6 +55,7 @@ InvC08 == (pc = "done" /\ mode # "expand") => FlattenModel(("root" :> doc), mode
 InvIsPipeline == pc = "done" => doc = FlattenModel(b0, mode, ru)
 \* phase lemmas (C02): what each phase must have achieved
 InvLemmas ==
-  /\ (pc \in {"drop", "import", "name", "remove", "done"} => NoSharedRefs(doc, {}))
-  /\ (pc \in {"name", "remove", "done"} => NoRemoteRefs(doc))
+  /\ (pc \in {"drop", "import", "name", "strip", "remove", "done"} => NoSharedRefs(doc, {}))
+  /\ (pc \in {"name", "strip", "remove", "done"} => NoRemoteRefs(doc))
+  /\ (pc \in {"remove", "done"} /\ mode # "expand" => C02_Form(doc))
 =============================================================================
